@@ -1,8 +1,10 @@
 (** The inductive invariant of [Engine.step] (C05 / C06 / C10), as Prop-level clauses, and the
     history predicate [run_clean] under which it is proved — VARIANT WITH MEMOIZED BINDS
-    (incrutil.BindMemoized; proofs: EngineInvMProofs.v, statements: Properties/C05_memo.v).
-    EngineInv.v / EngineInvProofs.v remain the reference development for histories without
-    memoized binds (crash-freedom and the C08 history theorems are proved there only).
+    (incrutil.BindMemoized; proofs: EngineInvMProofs.v, statements: Properties/C05_memo.v and
+    Properties/C09_memo.v).  EngineInv.v / EngineInvProofs.v remain the reference development
+    for histories without memoized binds (the pass-correctness files build on them); this
+    variant repeats all of it — invariance, crash-freedom, the C08 history theorems — with
+    memoized binds admitted.
 
     [Inv s] describes a QUIESCENT state (between two operations of a history).  It implies
     every clause of [EngineWf.wfb] ([EngineInvProofs.Inv_wfb]) and adds what makes it
@@ -253,7 +255,7 @@ Definition ev_ok (e : event) (l : list event) : Prop :=
   match e with
   | EvNec n => lastNU l n <> Some true
   | EvUnnec n => lastNU l n = Some true
-  | EvInvoked n _ _ | EvCutoff n _ _ _ | EvBindFn n _ _ => lastNU l n = Some true
+  | EvInvoked n _ _ | EvCutoff n _ _ _ | EvBindFn n _ _ => lastNU l n = Some true /\ EvInval n ∉ l
   | EvInval n => EvInval n ∉ l
   | _ => True
   end.
